@@ -126,21 +126,33 @@ fn execute(env: &Env, op: &ROp, expect_entries: usize) -> Result<Out, ErrInfo> {
             // pieces: every write(2) is cut down to a part of the buffer, as a full disk, a size limit or a signal would
             let _guard = PlanGuard;
             if let Some(k) = short_write_piece(data) {
-                sc::verif::plan(vec![sc::verif::Rule { nr: Some(sc::nr::WRITE), nth: None, action: sc::verif::Action::ClampArg { idx: 2, max: k }, times: usize::MAX }]);
+                // ... and the second write(2) is interrupted by a signal before it transfers anything
+                sc::verif::plan(vec![
+                    sc::verif::Rule { nr: Some(sc::nr::WRITE), nth: Some(1), action: sc::verif::Action::ForceRet(sc::verif::neg_errno(libc::EINTR)), times: 1 },
+                    sc::verif::Rule { nr: Some(sc::nr::WRITE), nth: None, action: sc::verif::Action::ClampArg { idx: 2, max: k }, times: usize::MAX },
+                ]);
             }
             tfs::write(us(&mut g1, p), data).map(|()| Out::Unit).map_err(errinfo)
         }
         ROp::Read { p } => {
             let _guard = PlanGuard;
             if let Some(k) = short_read_piece(p) {
-                sc::verif::plan(vec![sc::verif::Rule { nr: Some(sc::nr::READ), nth: None, action: sc::verif::Action::ClampArg { idx: 2, max: k }, times: usize::MAX }]);
+                // short reads, and the second read(2) interrupted by a signal before it transfers anything
+                sc::verif::plan(vec![
+                    sc::verif::Rule { nr: Some(sc::nr::READ), nth: Some(1), action: sc::verif::Action::ForceRet(sc::verif::neg_errno(libc::EINTR)), times: 1 },
+                    sc::verif::Rule { nr: Some(sc::nr::READ), nth: None, action: sc::verif::Action::ClampArg { idx: 2, max: k }, times: usize::MAX },
+                ]);
             }
             tfs::read(us(&mut g1, p)).map(Out::Bytes).map_err(errinfo)
         }
         ROp::ReadToString { p } => {
             let _guard = PlanGuard;
             if let Some(k) = short_read_piece(p) {
-                sc::verif::plan(vec![sc::verif::Rule { nr: Some(sc::nr::READ), nth: None, action: sc::verif::Action::ClampArg { idx: 2, max: k }, times: usize::MAX }]);
+                // short reads, and the second read(2) interrupted by a signal before it transfers anything
+                sc::verif::plan(vec![
+                    sc::verif::Rule { nr: Some(sc::nr::READ), nth: Some(1), action: sc::verif::Action::ForceRet(sc::verif::neg_errno(libc::EINTR)), times: 1 },
+                    sc::verif::Rule { nr: Some(sc::nr::READ), nth: None, action: sc::verif::Action::ClampArg { idx: 2, max: k }, times: usize::MAX },
+                ]);
             }
             tfs::read_to_string(us(&mut g1, p)).map(|s| Out::Bytes(s.into_bytes())).map_err(errinfo)
         }
